@@ -77,6 +77,7 @@ func runC02(c *Ctx) {
 		p.Extra = map[string]any{"skeletons": samples}
 	}
 	c02GroupCount(c)
+	c02PortSplit(c)
 }
 
 func safeSkeleton(b *skel.Builder, f *ssa.Function) (s string) {
@@ -272,4 +273,425 @@ func c02GroupCount(c *Ctx) {
 		}
 		c.check(okBound, "C02.ipv6.group-count", g, "groups are read only while fewer than 8 have been seen", nil, "so the counter passed to trimValidIPv6Field is in [0, 7]")
 	}
+}
+
+// ---- addr:port splitter ----
+
+// atomWalk follows the one path a loop-free function takes when every branch
+// condition is decided by classify under the assignment asg.  It returns the
+// return reached and the phi edges selected on the way.
+func atomWalk(f *ssa.Function, classify func(ssa.Value) (string, bool), asg map[string]bool) (*ssa.Return, map[*ssa.Phi]ssa.Value, string) {
+	sel := map[*ssa.Phi]ssa.Value{}
+	var prev *ssa.BasicBlock
+	b := f.Blocks[0]
+	for steps := 0; steps <= len(f.Blocks); steps++ {
+		for _, in := range b.Instrs {
+			phi, ok := in.(*ssa.Phi)
+			if !ok {
+				break
+			}
+			for i, p := range b.Preds {
+				if p == prev {
+					sel[phi] = phi.Edges[i]
+				}
+			}
+		}
+		switch t := b.Instrs[len(b.Instrs)-1].(type) {
+		case *ssa.Return:
+			return t, sel, ""
+		case *ssa.Jump:
+			prev, b = b, b.Succs[0]
+		case *ssa.If:
+			cond, truth := core.StripNot(t.Cond, true)
+			if phi, ok := cond.(*ssa.Phi); ok {
+				cond, truth = core.StripNot(sel[phi], truth)
+			}
+			var val bool
+			if k, isK := core.ConstBool(cond); isK {
+				val = k
+			} else {
+				name, ok := classify(cond)
+				if !ok {
+					return nil, nil, "a branch condition outside the recognised atoms: " + core.Describe(cond)
+				}
+				neg := strings.HasPrefix(name, "!")
+				val = asg[strings.TrimPrefix(name, "!")] != neg
+			}
+			if val == truth {
+				prev, b = b, b.Succs[0]
+			} else {
+				prev, b = b, b.Succs[1]
+			}
+		default:
+			return nil, nil, "a path ends without a return"
+		}
+	}
+	return nil, nil, "the function is not loop-free"
+}
+
+func c02PortSplit(c *Ctx) {
+	c.L.Floor("C02.port.split", 2)
+	c.L.Floor("C02.port.number", 1)
+	sp := c.fn("netutil", "splitAddrPort")
+	top := c.fn("netutil", "IsValidIPPortString")
+	if sp != nil && len(sp.Params) == 1 {
+		s := ssa.Value(sp.Params[0])
+		var idx ssa.Value
+		for _, ci := range core.CallsTo(sp, "strings.LastIndexByte") {
+			if k, ok := core.ConstInt(ci.Common().Args[1]); ok && k == ':' && ci.Common().Args[0] == s {
+				idx = ci.Value()
+			}
+		}
+		isIP := func(v ssa.Value) bool {
+			sl, ok := v.(*ssa.Slice)
+			return ok && idx != nil && sl.X == s && sl.Low == nil && sl.High == idx
+		}
+		isPort := func(v ssa.Value) bool {
+			sl, ok := v.(*ssa.Slice)
+			if !ok || idx == nil || sl.X != s || sl.High != nil || sl.Low == nil {
+				return false
+			}
+			b, ok := sl.Low.(*ssa.BinOp)
+			if !ok || b.Op != token.ADD || b.X != idx {
+				return false
+			}
+			k, isK := core.ConstInt(b.Y)
+			return isK && k == 1
+		}
+		isEmptyCmp := func(b *ssa.BinOp, is func(ssa.Value) bool) bool {
+			if str, ok := core.ConstString(b.Y); ok && str == "" && is(b.X) {
+				return true
+			}
+			if lc, ok := b.X.(*ssa.Call); ok && core.CalleeName(&lc.Call) == "builtin.len" && is(lc.Call.Args[0]) {
+				k, isK := core.ConstInt(b.Y)
+				return isK && k == 0
+			}
+			return false
+		}
+		classify := func(v ssa.Value) (string, bool) {
+			switch x := v.(type) {
+			case *ssa.BinOp:
+				pol := ""
+				switch x.Op {
+				case token.EQL:
+				case token.NEQ:
+					pol = "!"
+				case token.LSS:
+					if k, ok := core.ConstInt(x.Y); ok && k == 0 && x.X == idx && idx != nil {
+						return "NOCOLON", true
+					}
+					return "", false
+				default:
+					return "", false
+				}
+				if k, ok := core.ConstInt(x.Y); ok && k == -1 && x.X == idx && idx != nil {
+					return pol + "NOCOLON", true
+				}
+				if isEmptyCmp(x, isIP) {
+					return pol + "EMPTYIP", true
+				}
+				if isEmptyCmp(x, isPort) {
+					return pol + "EMPTYPORT", true
+				}
+			case *ssa.Call:
+				name := core.CalleeName(&x.Call)
+				if len(x.Call.Args) != 2 || !isIP(x.Call.Args[0]) {
+					return "", false
+				}
+				arg, _ := core.ConstString(x.Call.Args[1])
+				switch {
+				case name == "strings.Contains" && arg == ":":
+					return "HASCOLON", true
+				case name == "strings.ContainsRune":
+					if k, ok := core.ConstInt(x.Call.Args[1]); ok && k == ':' {
+						return "HASCOLON", true
+					}
+				case name == "strings.HasPrefix" && arg == "[":
+					return "LBR", true
+				case name == "strings.HasSuffix" && arg == "]":
+					return "RBR", true
+				}
+			}
+			return "", false
+		}
+		isStripped := func(v ssa.Value) bool {
+			sl, ok := v.(*ssa.Slice)
+			if !ok || !isIP(sl.X) || sl.Low == nil || sl.High == nil {
+				return false
+			}
+			lo, isK := core.ConstInt(sl.Low)
+			if !isK || lo != 1 {
+				return false
+			}
+			b, ok := sl.High.(*ssa.BinOp)
+			if !ok || b.Op != token.SUB {
+				return false
+			}
+			lc, ok := b.X.(*ssa.Call)
+			k, isK := core.ConstInt(b.Y)
+			return ok && core.CalleeName(&lc.Call) == "builtin.len" && isIP(lc.Call.Args[0]) && isK && k == 1
+		}
+		atoms := []string{"NOCOLON", "EMPTYIP", "EMPTYPORT", "HASCOLON", "LBR", "RBR"}
+		what := "ok and the returned host as a function of (no ':', empty host, empty port, host contains ':', '[' prefix, ']' suffix)"
+		bad, undec := "", ""
+		n := 0
+		for m := 0; m < 1<<len(atoms) && undec == ""; m++ {
+			asg := map[string]bool{}
+			desc := ""
+			for i, a := range atoms {
+				asg[a] = m&(1<<i) != 0
+				if asg[a] {
+					desc += " " + a
+				}
+			}
+			ret, sel, why := atomWalk(sp, classify, asg)
+			if ret == nil {
+				undec = why
+				break
+			}
+			n++
+			res := func(i int) ssa.Value {
+				v := ret.Results[i]
+				for {
+					phi, ok := v.(*ssa.Phi)
+					if !ok {
+						return v
+					}
+					v = sel[phi]
+				}
+			}
+			gotOK, isK := core.ConstBool(res(2))
+			if !isK {
+				undec = "the ok result is not a constant on some path"
+				break
+			}
+			wantOK := !asg["NOCOLON"] && !asg["EMPTYIP"] && !asg["EMPTYPORT"] && (!asg["HASCOLON"] || (asg["LBR"] && asg["RBR"]))
+			if gotOK != wantOK {
+				if bad == "" {
+					bad = sprintf("for {%s } ok is %v, netip.ParseAddrPort's splitter gives %v", desc, gotOK, wantOK)
+				}
+				continue
+			}
+			if !gotOK {
+				continue
+			}
+			host := res(0)
+			gotStripped, gotPlain := isStripped(host), isIP(host)
+			if !gotStripped && !gotPlain {
+				undec = "the returned host is neither s[:i] nor that without its first and last byte: " + core.Describe(host)
+				break
+			}
+			if gotStripped != asg["HASCOLON"] && bad == "" {
+				bad = sprintf("for {%s } the brackets are stripped: %v; they belong to IPv6 literals only (netip rejects \"[1.2.3.4]:80\" and needs \"[::1]:80\"), so they may be removed exactly when the host contains ':'", desc, gotStripped)
+			}
+			if !isPort(res(1)) && bad == "" {
+				bad = sprintf("for {%s } the returned port is not s[i+1:]", desc)
+			}
+		}
+		switch {
+		case undec != "":
+			c.undecided("C02.port.split", sp, what, nil, undec)
+		default:
+			c.check(bad == "", "C02.port.split", sp, what, nil, sprintf("decision table evaluated for all %d atom assignments against netip's splitAddrPort + bracket rule. %s", n, bad))
+		}
+	}
+	if top != nil && sp != nil {
+		p0 := ssa.Value(top.Params[0])
+		var split *ssa.Call
+		for _, ci := range core.AllCalls(top) {
+			if ci.Common().StaticCallee() == sp && ci.Common().Args[0] == p0 {
+				split, _ = ci.(*ssa.Call)
+			}
+		}
+		part := func(v ssa.Value, i int) bool {
+			ex, ok := v.(*ssa.Extract)
+			return ok && split != nil && ex.Tuple == ssa.Value(split) && ex.Index == i
+		}
+		classify := func(v ssa.Value) (string, bool) {
+			if part(v, 2) {
+				return "SPLITOK", true
+			}
+			if call, ok := v.(*ssa.Call); ok && call.Call.StaticCallee() != nil && len(call.Call.Args) == 1 {
+				switch call.Call.StaticCallee().Name() {
+				case "isUint16":
+					if part(call.Call.Args[0], 1) {
+						return "PORTOK", true
+					}
+				case "IsValidIPString":
+					if part(call.Call.Args[0], 0) {
+						return "IPOK", true
+					}
+				}
+			}
+			return "", false
+		}
+		bad, undec := "", ""
+		for m := 0; m < 8 && undec == ""; m++ {
+			asg := map[string]bool{"SPLITOK": m&1 != 0, "PORTOK": m&2 != 0, "IPOK": m&4 != 0}
+			ret, sel, why := atomWalk(top, classify, asg)
+			if ret == nil {
+				undec = why
+				break
+			}
+			v := ret.Results[0]
+			if phi, ok := v.(*ssa.Phi); ok {
+				v = sel[phi]
+			}
+			got, isK := core.ConstBool(v)
+			if !isK {
+				name, ok := classify(v)
+				if !ok {
+					undec = "the result is neither a constant nor one of the three tests: " + core.Describe(v)
+					break
+				}
+				got = asg[name]
+			}
+			if got != (asg["SPLITOK"] && asg["PORTOK"] && asg["IPOK"]) && bad == "" {
+				bad = sprintf("result %v for %v", got, asg)
+			}
+		}
+		if undec != "" {
+			c.undecided("C02.port.split", top, "IsValidIPPortString == split ok && isUint16(port) && IsValidIPString(host)", nil, undec)
+		} else {
+			c.check(bad == "", "C02.port.split", top, "IsValidIPPortString == split ok && isUint16(port) && IsValidIPString(host)", nil, "evaluated for all 8 outcomes of the three tests. "+bad)
+		}
+	}
+	if f := c.fn("netutil", "isUint16"); f != nil {
+		c02Uint16(c, f)
+	}
+}
+
+// c02Uint16: one iteration of the digit loop, evaluated exactly at the
+// thresholds of its comparisons: a non-digit rejects; otherwise the running
+// value becomes n*10+digit and anything above 65535 rejects at once (so the
+// accumulator cannot overflow, however long the text is).
+func c02Uint16(c *Ctx, f *ssa.Function) {
+	what := "digit loop: reject non-digits, n' = 10n + d, reject as soon as n' > 65535 (strconv.ParseUint(s, 10, 16))"
+	var head *ssa.BasicBlock
+	for h := range core.LoopHeads(f) {
+		if head != nil {
+			c.undecided("C02.port.number", f, what, nil, "more than one loop")
+			return
+		}
+		head = h
+	}
+	if head == nil {
+		c.undecided("C02.port.number", f, what, nil, "no loop")
+		return
+	}
+	var acc *ssa.Phi
+	var next *ssa.Next
+	for _, in := range head.Instrs {
+		switch x := in.(type) {
+		case *ssa.Phi:
+			if acc != nil {
+				c.undecided("C02.port.number", f, what, nil, "more than one loop-carried value")
+				return
+			}
+			acc = x
+		case *ssa.Next:
+			next = x
+		}
+	}
+	hif, _ := head.Instrs[len(head.Instrs)-1].(*ssa.If)
+	if acc == nil || next == nil || !next.IsString || hif == nil {
+		c.undecided("C02.port.number", f, what, nil, "not a `for _, r := range s` loop with one accumulator")
+		return
+	}
+	if rg, ok := next.Iter.(*ssa.Range); !ok || rg.X != ssa.Value(f.Params[0]) {
+		c.undecided("C02.port.number", f, what, nil, "the loop does not range over the parameter")
+		return
+	}
+	var rn ssa.Value
+	for _, r := range core.Refs(next) {
+		if ex, ok := r.(*ssa.Extract); ok && ex.Index == 2 {
+			rn = ex
+		}
+	}
+	start := int64(-1)
+	for i, e := range acc.Edges {
+		if !head.Dominates(head.Preds[i]) {
+			start, _ = core.ConstInt(e)
+		}
+	}
+	// the exit taken when the text is exhausted accepts
+	done := head.Succs[1]
+	okDone := false
+	if ret, ok := done.Instrs[len(done.Instrs)-1].(*ssa.Return); ok && len(done.Instrs) == 1 {
+		b, isK := core.ConstBool(ret.Results[0])
+		okDone = isK && b
+	}
+	if rn == nil || start != 0 || !okDone {
+		c.check(false, "C02.port.number", f, what, nil, sprintf("accumulator starts at %d (want 0); the exhausted-text exit must be a plain `return true`", start))
+		return
+	}
+	ns := []int64{0, 1, 9, 10, 99, 655, 6552, 6553, 6554, 6555, 9999, 65535}
+	rs := []int64{0, 47, 48, 49, 52, 53, 54, 55, 56, 57, 58, 65, 0x660, 0xFFFD, 0x10FFFF}
+	bad, undec := "", ""
+	cases := 0
+	for _, n0 := range ns {
+		for _, r := range rs {
+			env := map[ssa.Value]int64{acc: n0, rn: r}
+			b, prev := head.Succs[0], head
+			outcome := "" // "reject", "accept", "continue"
+			var nextN int64
+			for steps := 0; steps < 32 && outcome == "" && undec == ""; steps++ {
+				if b == head {
+					outcome = "continue"
+					for i, p := range head.Preds {
+						if p == prev {
+							v, ok := evalSmall(acc.Edges[i], env, 0)
+							if !ok {
+								undec = "the new accumulator value is not arithmetic over (n, r)"
+							}
+							nextN = v
+						}
+					}
+					break
+				}
+				switch t := b.Instrs[len(b.Instrs)-1].(type) {
+				case *ssa.Return:
+					k, isK := core.ConstBool(t.Results[0])
+					if !isK {
+						undec = "a non-constant result inside the loop"
+					} else if k {
+						outcome = "accept"
+					} else {
+						outcome = "reject"
+					}
+				case *ssa.Jump:
+					prev, b = b, b.Succs[0]
+				case *ssa.If:
+					v, ok := evalSmall(t.Cond, env, 0)
+					if !ok {
+						undec = "a loop condition is not arithmetic over (n, r): " + core.Describe(t.Cond)
+					} else if v != 0 {
+						prev, b = b, b.Succs[0]
+					} else {
+						prev, b = b, b.Succs[1]
+					}
+				default:
+					undec = "unexpected block end"
+				}
+			}
+			if undec != "" {
+				break
+			}
+			cases++
+			want, wantN := "reject", int64(0)
+			if r >= '0' && r <= '9' {
+				if v := n0*10 + (r - '0'); v <= 65535 {
+					want, wantN = "continue", v
+				}
+			}
+			if (outcome != want || (want == "continue" && nextN != wantN)) && bad == "" {
+				bad = sprintf("with n=%d and rune %d the iteration does %q (n'=%d), the reference does %q (n'=%d)", n0, r, outcome, nextN, want, wantN)
+			}
+		}
+	}
+	if undec != "" {
+		c.undecided("C02.port.number", f, what, nil, undec)
+		return
+	}
+	c.check(bad == "", "C02.port.number", f, what, nil, sprintf("%d (n, rune) threshold cases evaluated exactly. %s", cases, bad))
 }
